@@ -6,6 +6,7 @@ state reachable by *any* sequence of operations (any length, any number of reade
 timed-out reload goroutines) — `run ops = ops.foldl step {}`.
 -/
 import DnsVerif.Proofs.Life
+import DnsVerif.Generated.Facts
 
 namespace DnsVerif.Props.C06
 open DnsVerif.Life
@@ -53,5 +54,40 @@ example :
     s.down = true ∧ s.readers = [] ∧ s.pending = [] ∧ s.backends.length = 3 ∧
     s.backends.all (fun b => b.closes = 1 ∧ b.badUses = 0) = true := by
   decide
+
+
+/-! ### the acquisition is atomic with respect to reloads
+
+The model's `acquire` reads the served database and takes its reference in one step. The code does
+so only if the pointer read and `db.NewReader` (the reference count increment) both lie inside one
+shared section of `reloadMu`, which `Reload` and `Close` hold exclusively: the trace of
+`acquireReaderGen` is re-extracted from `dnsserver/db.go` on every run. -/
+
+/-- one shared section: `RLock`, its deferred `RUnlock`, and everything else while it is held -/
+def sharedSection : List String → Bool
+  | "RLock" :: "deferRUnlock" :: rest =>
+    rest.all (fun e => e == "R" || e == "call:NewReader") && rest.contains "R" && rest.contains "call:NewReader"
+  | _ => false
+
+theorem acquire_atomic : sharedSection Generated.dnsserver_acquireReaderGen_trace = true := by decide
+
+/-- reading the pointer under the lock and taking the reference after releasing it is rejected -/
+example : sharedSection ["RLock", "R", "RUnlock", "call:NewReader"] = false := by decide
+
+
+/-- one exclusive section from the first access to the last: `Lock`, its deferred `Unlock`, then the
+read of the served database, `db.Reload` on it, the pointer swap and the cache purge -/
+def exclusiveSection : List String → Bool
+  | "Lock" :: "deferUnlock" :: rest =>
+    rest.all (fun e => e == "R" || e == "W" || e == "call:Reload" || e == "call:Purge")
+      && rest.contains "call:Reload" && rest.contains "W"
+  | _ => false
+
+/-- `FBDNSDB.Reload` holds `reloadMu` exclusively from before it reads the served database until
+after the swap and the purge (the model's reload operations are single steps for this reason) -/
+theorem reload_exclusive : exclusiveSection Generated.dnsserver_Reload_trace = true := by decide
+
+/-- a reload that takes the lock for the swap only is rejected -/
+example : exclusiveSection ["R", "call:Reload", "Lock", "deferUnlock", "W", "call:Purge"] = false := by decide
 
 end DnsVerif.Props.C06
